@@ -35,6 +35,33 @@ def cop_coq(h, op):
     return "CN"
 
 
+def xops_coq(h):
+    """per op the steps of the flush/drop machine (Model.v xstate): FB = log switch, FE = commit + log removal,
+    F = switch + commit + removal (after finishing a held flush), D = mark, flush, remove the data files (XDropDone)"""
+    out, held = [], False
+    fin = ["XCommit", "XRemove"]
+    for op in h["ops"]:
+        k = op["k"]
+        if k == "W":
+            out.append(["XWrite %s" % rows_coq(h, op["rows"])])
+        elif k == "FB":
+            out.append([] if held else ["XSwitch"])
+            held = True
+        elif k == "FE":
+            out.append(fin if held else [])
+            held = False
+        elif k == "F":
+            out.append((fin if held else []) + ["XSwitch"] + fin)
+            held = False
+        elif k == "D":
+            m = coq_n(op.get("m", 0) % (h.get("nmst", 1) or 1))
+            out.append((fin if held else []) + ["XDropBegin %s" % m, "XSwitch"] + fin + ["XDropDone %s" % m])
+            held = False
+        else:
+            out.append([])
+    return coq_list([coq_list(x) for x in out])
+
+
 def parts_coq(parts):
     return coq_list([coq_list(["%d%%nat" % i for i in p]) for p in parts])
 
@@ -225,7 +252,7 @@ def main(ck):
     except (OSError, ValueError, KeyError):
         pass
     ck.coq_audit(["C01"])
-    ok = ck.coq_build(["C01/Proofs.vo", "C01/Proofs2.vo", "C01/Corr.vo"])
+    ok = ck.coq_build(["C01/Proofs.vo", "C01/Proofs2.vo", "C01/Proofs3.vo", "C01/Corr.vo"])
     if ok:
         ck.coq_props(["C01/Props.v", "C01/Refuted.v"])
     binp = ck.go_build("./cmd/c01", "c01")
@@ -291,7 +318,7 @@ def main(ck):
                 if im.get("dump") is None:
                     im["dump"] = []
                 imgs.append(image_coq(h, im, parent))
-            cases.append("mkcc %d%%nat %s\n %s" % (h["nwal"], coq_list([cop_coq(h, o) for o in h["ops"]]), coq_list(imgs)))
+            cases.append("mkcc %d%%nat %s\n %s\n %s" % (h["nwal"], coq_list([cop_coq(h, o) for o in h["ops"]]), xops_coq(h), coq_list(imgs)))
         txt = ("From Coq Require Import NArith ZArith List Bool. From OG Require Import C01.Model C01.Corr.\n"
                "Import ListNotations.\nDefinition cases : list ccase := [\n%s\n].\n"
                "Definition M := Eval vm_compute in all_codes cases.\nPrint M.\n") % ";\n".join(cases)
@@ -338,6 +365,9 @@ def main(ck):
             if code is not None and (code & 4):
                 model_disagree.append((h, j, "live-log tie: the log files found in the image differ from the model's live log (live_current: "
                                              "placement by counter mod N, epochs below nj removed, gone partitions of epoch nj)"))
+            if code is not None and (code & 8):
+                model_disagree.append((h, j, "the flush/drop machine of the model (xstate: commit with the per-measurement skip, drop = mark, flush, "
+                                             "file removal; C01_flush_skip_exact) recovers something else than the shard shows"))
             if code is not None:
                 code &= 3
             if im.get("tie") and im["sub"] < 0:
